@@ -9,8 +9,14 @@ use crate::world::{Family, NodeId, Res, World, NO_NODE, ROOT};
 
 #[derive(Default)]
 pub struct Model {
-    /// the root is a flat combinator over leaves: family rules (LR) apply
+    /// the root is a flat combinator over leaves
     pub flat: bool,
+    /// node whose frame is being evaluated by the log-relative model (for messages)
+    pub lr_node: NodeId,
+    /// compare the result kind only (inner race_ok errors)
+    pub lr_res_only: bool,
+    /// the root was built by dynnest.rs (its race_ok error is re-packaged like an inner one)
+    pub dyn_root: bool,
     /// provenance (child position) of every item the root yielded (merge fairness)
     pub yields: Vec<u32>,
     /// C17: position of the always-ready input, if the scenario has one
@@ -83,6 +89,10 @@ pub fn on_poll_begin(w: &mut World, id: NodeId) {
             w.flag("c03.outside_owner", || format!("n{id} polled {wher}"));
         }
         let n = w.node(id);
+        if w.std_cfg && selective(pfam) && n.last == Some(Res::Pending) {
+            w.stats.o_c16 += 1;
+        }
+        let n = w.node(id);
         if w.std_cfg && selective(pfam) && n.last == Some(Res::Pending) && !n.fired_any {
             w.flag("c16.unwoken_poll", || {
                 format!(
@@ -138,6 +148,11 @@ pub fn on_poll_end(w: &mut World, id: NodeId, res: Res, val: Option<u32>) {
         w.node_mut(id).buffered = val;
     }
     if !w.node(id).is_leaf() && id != ROOT {
+        // the family's log-relative model applies to an inner combinator exactly as to a root
+        w.frame = w.node(id).frame.clone();
+        let vals: Vec<u32> = val.into_iter().collect();
+        let out = Out { res, key: None, vals, bogus: false };
+        lr_check(w, id, &out);
         if res == Res::Pending {
             let fired = w.node(id).fired_cur;
             check_cp1(w, id, fired);
@@ -154,6 +169,7 @@ pub fn on_poll_end(w: &mut World, id: NodeId, res: Res, val: Option<u32>) {
 }
 
 fn check_cp1(w: &mut World, p: NodeId, p_notified: bool) {
+    w.stats.o_cp1 += 1;
     if p_notified {
         return;
     }
@@ -174,6 +190,7 @@ fn check_cp1(w: &mut World, p: NodeId, p_notified: bool) {
 }
 
 fn check_c20(w: &mut World, p: NodeId) {
+    w.stats.o_c20 += 1;
     let fam = w.node(p).fam;
     if !concurrent(fam) {
         return;
@@ -200,10 +217,11 @@ pub fn after_fire(w: &mut World, node: NodeId) {
     if p == NO_NODE {
         return;
     }
-    let pn = w.node(p);
-    if pn.in_poll {
+    if w.node(p).in_poll {
         return; // CP1 at the end of that poll
     }
+    w.stats.o_cp2 += 1;
+    let pn = w.node(p);
     if p == ROOT {
         if !w.root_alive || w.root_done || w.root_dropping {
             return;
@@ -264,10 +282,9 @@ pub fn on_root_poll_end(w: &mut World, out: &Out) {
     if out.res == Res::Panic {
         return;
     }
-    if w.model.flat {
-        lr_check(w, out);
-    } else if w.node(ROOT).fam == Family::Zip && out.res == Res::Some {
-        // nested zip root produced a row: its inputs' buffered items were consumed
+    lr_check(w, ROOT, out);
+    if w.node(ROOT).fam == Family::Zip && out.res == Res::Some {
+        // a zip root produced a row: its inputs' buffered items were consumed
         let kids = w.node(ROOT).children.clone();
         for k in kids {
             w.node_mut(k).buffered = None;
@@ -284,11 +301,27 @@ fn kid_pos(w: &World, id: NodeId) -> usize {
     w.node(ROOT).children.iter().position(|&c| c == id).unwrap_or(usize::MAX)
 }
 
+fn flat(w: &World, vals: &[u32]) -> Vec<u32> {
+    let mut out = Vec::with_capacity(vals.len());
+    for &v in vals {
+        if (v as usize) < w.vals.len() {
+            w.val_flat(v, &mut out);
+        } else {
+            out.push(v);
+        }
+    }
+    out
+}
+
+/// Compare what a combinator returned with what its model requires. Values are compared after flattening
+/// composites (outputs of inner combinators) into the leaf-produced values they consist of.
 fn expect(w: &mut World, oracle: &'static str, out: &Out, res: Res, vals: &[u32], why: &str) {
-    if out.res != res || (res != Res::Pending && res != Res::None && out.vals != vals) {
+    let differs = out.res != res || (res != Res::Pending && res != Res::None && !w.model.lr_res_only && flat(w, &out.vals) != flat(w, vals));
+    if differs {
         let got = fmt_out(out);
         let want = format!("{}{}", res.name(), fmt_vals(vals));
-        w.flag(oracle, || format!("root returned {got} but the model requires {want}: {why}"));
+        let who = w.model.lr_node;
+        w.flag(oracle, || format!("n{who} returned {got} but the model requires {want}: {why}"));
     }
 }
 
@@ -314,15 +347,25 @@ fn no_poll_after(w: &mut World, oracle: &'static str, i: usize, what: &str) {
     }
 }
 
-fn lr_check(w: &mut World, out: &Out) {
-    let fam = w.node(ROOT).fam;
-    let kids = w.node(ROOT).children.clone();
+fn lr_check(w: &mut World, node: NodeId, out: &Out) {
+    let fam = w.node(node).fam;
+    if matches!(fam, Family::Leaf | Family::FutGroup | Family::StreamGroup | Family::CoStream) {
+        return;
+    }
+    if out.res == Res::Panic {
+        return;
+    }
+    w.stats.o_lr_frames += 1;
+    w.model.lr_node = node;
+    // an inner race_ok reports a fresh error value of its own (its aggregate cannot be taken apart)
+    w.model.lr_res_only = (node != ROOT || w.model.dyn_root) && fam == Family::RaceOk && out.res == Res::Err;
+    let kids = w.node(node).children.clone();
     let all_done = kids.iter().all(|&k| w.node(k).done);
     let frame = w.frame.clone();
     match fam {
         Family::Join => {
             if all_done {
-                let vals: Vec<u32> = kids.iter().map(|&k| w.node(k).produced.first().copied().unwrap_or(u32::MAX)).collect();
+                let vals: Vec<u32> = kids.iter().map(|&k| w.node(k).final_val.unwrap_or(u32::MAX)).collect();
                 expect(w, "c04.lr", out, Res::Ready, &vals, "every child has resolved; output must hold each child's value at its position, in this poll");
             } else {
                 expect(w, "c04.lr", out, Res::Pending, &[], "some child has not resolved yet");
@@ -334,7 +377,7 @@ fn lr_check(w: &mut World, out: &Out) {
                 expect(w, "c05.lr", out, Res::Err, &[e], "a child failed in this poll; try_join must return exactly that (first observed) error now");
                 no_poll_after(w, "c05.lr", i, "failed");
             } else if all_done {
-                let vals: Vec<u32> = kids.iter().map(|&k| w.node(k).produced.first().copied().unwrap_or(u32::MAX)).collect();
+                let vals: Vec<u32> = kids.iter().map(|&k| w.node(k).final_val.unwrap_or(u32::MAX)).collect();
                 expect(w, "c05.lr", out, Res::Ok, &vals, "all children resolved Ok; positional output");
             } else {
                 expect(w, "c05.lr", out, Res::Pending, &[], "no failure seen and some child unresolved");
@@ -355,7 +398,7 @@ fn lr_check(w: &mut World, out: &Out) {
                 expect(w, "c07.lr", out, Res::Ok, &[v], "first child seen to succeed in this poll wins");
                 no_poll_after(w, "c07.lr", i, "succeeded");
             } else if all_done {
-                let vals: Vec<u32> = kids.iter().map(|&k| w.node(k).produced.first().copied().unwrap_or(u32::MAX)).collect();
+                let vals: Vec<u32> = kids.iter().map(|&k| w.node(k).final_val.unwrap_or(u32::MAX)).collect();
                 expect(w, "c07.lr", out, Res::Err, &vals, "last child failed; aggregate holds each child's error at its position");
             } else {
                 expect(w, "c07.lr", out, Res::Pending, &[], "no success seen and some child unresolved");
@@ -371,7 +414,7 @@ fn lr_check(w: &mut World, out: &Out) {
             } else {
                 expect(w, "c08.lr", out, Res::Pending, &[], "no item in this poll and some input still live");
             }
-            if out.res == Res::Some {
+            if out.res == Res::Some && node == ROOT {
                 if let Some(&v) = out.vals.first() {
                     if let Some(info) = w.vals.get(v as usize) {
                         let pos = kid_pos(w, info.by) as u32;
@@ -584,6 +627,7 @@ pub fn at_quiescence(w: &mut World) {
     if w.node(ROOT).last != Some(Res::Pending) {
         return;
     }
+    w.stats.o_quiescence += 1;
     if let Err((who, why)) = blocked(w, ROOT) {
         w.flag("c01.live", || {
             format!("quiescent (no event left, no wake-up outstanding) with the root Pending, but progress is owed: {why}")
@@ -630,6 +674,7 @@ pub fn at_root_drop_end(w: &mut World) {
 }
 
 pub fn at_end(w: &mut World) {
+    w.stats.o_drop_accounting += 1;
     for id in 1..w.nodes.len() as NodeId {
         let n = w.node(id);
         if n.parent != NO_NODE && n.dropped != 1 && n.live {
